@@ -218,6 +218,27 @@ pub fn bulk_frame<const H: usize, const P: usize>() {
         Ok(Some(_)) => assert!(false, "C20 bulk frame decoded to a value of another type"),
         _ => {}
     }
+    // a proper prefix of a well-formed bulk frame must be answered with "need more data", never with an error
+    // (an error drops the bytes read so far and the rest of the frame is then parsed as garbage)
+    if H >= 1 {
+        let mut all_digits = true;
+        let mut l: usize = 0;
+        let mut k = 0;
+        while k < H {
+            if hdr[k] >= b'0' && hdr[k] <= b'9' {
+                l = l * 10 + (hdr[k] - b'0') as usize;
+            } else {
+                all_digits = false;
+            }
+            k += 1;
+        }
+        if all_digits && P < l + 2 && (P <= l || rest[l] == b'\r') {
+            assert!(c == 1, "C20 a proper prefix of a bulk frame was not answered with 'need more data'");
+        }
+        if all_digits && P >= l + 2 && rest[l] == b'\r' && rest[l + 1] == b'\n' {
+            assert!(c == 0, "C20 a complete bulk frame was not decoded");
+        }
+    }
     // allocation: nothing the decoder asks for exceeds a small multiple of the bytes received
     assert!(unsafe { VK_MAX_ALLOC } <= 64 + 40 * n, "C21 allocation larger than a small multiple of the bytes received");
     vk_cover!(matches!(&r, Ok(Some(RespValue::BulkString(Some(d)))) if d.len() > 0), "reach payload");
@@ -336,12 +357,19 @@ pub fn array_elems<const K: usize>(count: usize) {
 /// A declared element count of up to D decimal digits with nothing after the header: the decoder must
 /// answer (need more data / error) without reserving storage for the declared count.
 pub fn array_huge_count<const D: usize>() {
+    huge_count::<D>(b'*')
+}
+/// The same for a bulk-string header (`$` + up to D digits, optionally signed by the first symbolic byte).
+pub fn bulk_huge_count<const D: usize>() {
+    huge_count::<D>(b'$')
+}
+fn huge_count<const D: usize>(ty: u8) {
     let digits: [u8; D] = kani::any();
     let mut v: Vec<u8> = Vec::with_capacity(D + 3);
-    v.push(b'*');
+    v.push(ty);
     let mut i = 0;
     while i < D {
-        kani::assume(digits[i] >= b'0' && digits[i] <= b'9');
+        kani::assume((digits[i] >= b'0' && digits[i] <= b'9') || (i == 0 && (digits[i] == b'-' || digits[i] == b'+')));
         v.push(digits[i]);
         i += 1;
     }
@@ -356,7 +384,7 @@ pub fn array_huge_count<const D: usize>() {
         assert!(buf.len() == n, "C20 decoder consumed bytes although it asked for more data");
     }
     assert!(unsafe { VK_MAX_ALLOC } <= 64 + 40 * n, "C21 allocation larger than a small multiple of the bytes received");
-    vk_cover!(c == 1, "reach need-more");
+    vk_cover!(c == 1 || c == 2, "reach");
     std::mem::forget((r, buf, v));
 }
 
